@@ -324,6 +324,9 @@ func c14Run(raw json.RawMessage) harn.Result {
 	if err := vm.Run(c14Prelude); err != nil {
 		panic(err)
 	}
+	if len(c.Src)%12 == 1 {
+		drv.WarmUp(vm) // one case in twelve on a well-used VM
+	}
 	if err := vm.Parse(c.Src); err != nil {
 		viol("MACHINERY:generator", "rejected: "+err.Error())
 		return res
